@@ -5,11 +5,26 @@ import json, os
 D = os.path.dirname(os.path.abspath(__file__))
 
 CHECKS = {
+ 'C01': dict(
+   category='model_checking', design_ref='DESIGN.md 5 C01',
+   technique='exhaustive exploration (z3 all-SAT over verdict and schedule choice vectors) of complete runs of the real cli.ddsmt_main with real files; only the command is a model (reference reader + oracle)',
+   text='For 8 configurations spanning the three strategies, -j 1/-j 2, the three output formats and three oracle families, every verdict function and pool schedule within the budgets: each content written to the output file and the file left at exit has the token sequence of a candidate file the command was run on and answered like the golden run; the input file is byte-identical afterwards; nothing else is written outside the temporary directory. Generality beyond the scenarios rests on C05 (chain), C07 (renderers), C08 (parser), C09 (comparison).',
+   note="Trusted: the nondeterministic environment of vlib/stubs/strat.py (oracle families: first-V free verdicts, hash classes, required tokens, consistent numerals; FakePool with atomic pull/execute/deliver steps; plain abort flag); z3 as exhaustive enumerator of choice vectors (all-SAT, generalised to the bits each run read). The strategy code itself runs natively, unmodified. Outside: real processes and torn reads between feeder thread and main thread; more free verdicts / scheduling choices than the budget; other inputs than the scenario scripts."),
+ 'C02': dict(
+   category='model_checking', design_ref='DESIGN.md 5 C02',
+   technique='exhaustive exploration (z3 all-SAT over verdict and schedule choice vectors) of the real strategy_hierarchical.reduce (and hybrid), followed by an independent proposal enumerator on the result that queries the same oracle',
+   text='For every verdict function of four oracle families and every pool schedule within the budgets, on 9 scenario configurations: after reduce() returns, no proposal of any mutator of the last pass on any node of the result is accepted by the oracle; untested candidates get free verdicts, so a candidate skipped for good is found as a satisfiable acceptance.',
+   note="Trusted: the nondeterministic environment of vlib/stubs/strat.py (oracle families: first-V free verdicts, hash classes, required tokens, consistent numerals; FakePool with atomic pull/execute/deliver steps; plain abort flag); z3 as exhaustive enumerator of choice vectors (all-SAT, generalised to the bits each run read). The strategy code itself runs natively, unmodified. Outside: real processes and torn reads between feeder thread and main thread; more free verdicts / scheduling choices than the budget; other inputs than the scenario scripts."),
  'C04': dict(
    category='model_checking', design_ref='DESIGN.md 5 C04',
    technique='bounded symbolic execution (CrossHair/z3): parser on every text up to the bound without the balancedness precondition; theory detection / collect_information / counting / rendering on command trees whose identifier leaves are symbolic strings (the solver finds the magic names); exit-status and usage-error mapping with symbolic outcomes; exception isolation by bounded enumeration',
    text='No exception escapes parse_smtlib for any text up to the bound; none escapes auto_detect_theories (all is_relevant), collect_information, count_* or the renderer on any command tree shape up to the bound with an arbitrary identifier at the command position or at any one other leaf; __main__.main returns 0 iff ddsmt_main completed and the executable exits with exactly that value (rc symbolic in 0..255); every usage error of check_options is one one-line DDSMTException. A mutator raising any of 7 exception classes at any call site costs only its own candidates in both strategies (224 combinations each, enumerated).',
    note='Trusted: CrossHair/z3 string model; hash shim T; Node.__format__ shim; fake os.path in the usage harness; the isolation sub-check is concrete enumeration (auxiliary). Outside: more than one non-command symbolic identifier at a time, deeper trees, failures inside real worker processes.'),
+ 'C05': dict(
+   category='model_checking', design_ref='DESIGN.md 5 C05',
+   technique='exhaustive exploration (z3 all-SAT over verdict and schedule choice vectors) of the real strategy_ddmin.reduce / strategy_hierarchical.reduce on a fake process pool with an explicit scheduler; chain relation asserted over recorded derivations, verdicts and writes',
+   text='For every verdict function (three oracle families) and every schedule (J up to 2 quick / 3 thorough; pull / execute one of the first J queued tasks / deliver; several simultaneous successes, successes arriving after the abort signal) within the budgets, on 10 scenario configurations incl. ddmin through _check_par: each write of the output file was accepted before, derives from the previously written input by one recorded application of a simplification, the returned input is the last written, and every input handed to a TaskGenerator/Producer has pairwise distinct node ids.',
+   note="Trusted: the nondeterministic environment of vlib/stubs/strat.py (oracle families: first-V free verdicts, hash classes, required tokens, consistent numerals; FakePool with atomic pull/execute/deliver steps; plain abort flag); z3 as exhaustive enumerator of choice vectors (all-SAT, generalised to the bits each run read). The strategy code itself runs natively, unmodified. Outside: real processes and torn reads between feeder thread and main thread; more free verdicts / scheduling choices than the budget; other inputs than the scenario scripts."),
  'C07': dict(
    category='model_checking', design_ref='DESIGN.md 5 C07',
    technique='bounded symbolic execution (CrossHair/z3): symbolic text -> real parser -> each real renderer -> read back by the reference reader and the real parser; tree-level variant with lexemes of symbolic kind/content; line wrapping with symbolic width and with a long concrete context',
@@ -65,6 +80,11 @@ CHECKS = {
    technique='translation validation with z3 (cvc5 cross-check in thorough): each (original, replacement) pair produced by the real mutator code on generated instances is decided as an SMT query over uninterpreted operands',
    text='For every instance of 22 rewrite families (all constants/notations, indices, extension amounts and widths up to the bound; operands are declared symbols or applications of declared functions, so the solver quantifies over all operand values and all interpretations) the replacement produced by the real filter/mutations/apply_simp code is proved equal to the original (unsat of the negated equality) or a separating assignment is returned; a sort error of the query means the sort is not preserved.',
    note='Trusted: z3 (and cvc5) semantics of SMT-LIB. Widths/indices/constants are enumerated up to the bound (z3 sorts cannot be symbolic in width); operand shapes are a leaf or one application. n-ary forms outside the documented binary forms are not claimed. Proposals on which a mutator raises are counted and reported under C04.'),
+ 'C18': dict(
+   category='model_checking', design_ref='DESIGN.md 5 C18',
+   technique='exhaustive exploration (z3 all-SAT): the real strategies with one job run twice under the same token-deterministic oracle, once with the lazy and once with an arbitrary single-worker schedule; write sequences compared',
+   text='For every verdict function (hash-class and required-token oracles) and every timing of the single-worker pool within the budgets (how far the feeder runs ahead, when results are delivered), on 8 configurations over all three strategies: the sequence of accepted inputs and the final input are identical to those of the lazy schedule. Known finding C18-fresh-name-node-id (names of fresh variables contain node ids, which depend on timing) is compared modulo the number and replayed raw on every run.',
+   note="Trusted: the nondeterministic environment of vlib/stubs/strat.py (oracle families: first-V free verdicts, hash classes, required tokens, consistent numerals; FakePool with atomic pull/execute/deliver steps; plain abort flag); z3 as exhaustive enumerator of choice vectors (all-SAT, generalised to the bits each run read). The strategy code itself runs natively, unmodified. Outside: real processes and torn reads between feeder thread and main thread; more free verdicts / scheduling choices than the budget; other inputs than the scenario scripts. Independence from PYTHONHASHSEED and process ids is NOT decided (needs separate interpreters)."),
 }
 NOT_APPLICABLE = {}
 ALL = ['C%02d' % i for i in range(1, 19)]
